@@ -290,3 +290,39 @@ def repo_test_queries():
         for m in re.finditer(r'(?:assert_)?query!\(\s*"((?:[^"\\]|\\.)*)"', src):
             out.append(m.group(1).encode().decode("unicode_escape") if "\\" in m.group(1) else m.group(1))
     return sorted(set(out))
+
+
+# ------------------------------------------------------------------ the scales the tool itself exhibits
+def observed_scales(name="observed"):
+    """{unit key: {"n": limbs, "d": limbs}}: the value the tool prints for `1 <unit> to <SI base units>`;
+    used as the scale source `Fac` by the checks of C03 / C04 / C13 so that a wrong unit definition is
+    reported once (under C05) and not under every law it takes part in.  Returns (path of the JSON file, table)."""
+    import ugen
+    v = ugen.Vocab()
+    rnd = random.Random(1)
+    qs, keys = [], []
+    for k, u in v.units.items():
+        if k in v.offset:
+            continue
+        w, e = v.word_for(rnd, k, allow_prefix=False)
+        if not w:
+            continue
+        base = " ".join("%s^%d" % (b, u["dims"][b]) for b in ugen.BASES if u["dims"].get(b, 0))
+        qs.append("1 %s to %s" % (w, base))
+        keys.append((k, e))
+    path = record(qs, name)
+    out = {}
+    for (k, e), r in zip(keys, vlib.read_ndjson(path)):
+        if len(r["res"]) == 1 and r["res"][0]["k"] == "val":
+            x = r["res"][0]
+            val = Fraction(limbs_to_int(x["n"]), limbs_to_int(x["d"])) / Fraction(10) ** e     # undo the name's own bias (gram)
+            if x["neg"]:
+                continue
+            out[k] = {"n": vlib.digits(str(val.numerator)), "d": vlib.digits(str(val.denominator))}
+    opath = os.path.join(vlib.WORK, name, "observed.json")
+    with open(opath, "w") as f:
+        json.dump(out, f)
+    return opath, out
+
+
+from fractions import Fraction
